@@ -96,7 +96,7 @@ CLAIMED["C07"] = {
             "returns exactly (d, M), and the same for the JSON document (json_roundtrip_moc: the JSON token stream is the ASCII one restricted to single cells; the real JSON text is "
             "reduced to that token stream by dropping quotes / braces / brackets and mapping ':' to '/' and ',' to ' '); big-endian words and (start,end) row pairing are inverted exactly; padded data units are whole 2880-byte blocks; NUNIQ code round trip. "
             "Tied to the code by three correspondences on real bytes (writer text = model text, reader = model reader, FITS data unit = model bytes). Partial: fold widths, offset notation, streaming "
-            "ASCII, JSON, FITS header cards, NUNIQ files and lazy writers are checked by direct round trips on real bytes (test level), not modelled.",
+            "ASCII, the JSON reader and lazy writers are checked by direct round trips on real bytes (test level), not modelled (FITS header cards and NUNIQ files: modelled and proved in session 5, below).",
     "design_ref": "DESIGN.md §4 C07, §10",
     "note": TB + "; nom/serde_json/byteorder not modelled",
     "technique": "Lean 4 proof (token-level round trip, byte/row codecs, padding) + differential correspondence on real bytes + direct round-trip checks for the unmodelled options",
@@ -108,8 +108,8 @@ CLAIMED["C11"] = {
             "hypothesis is necessary. ASCII: model of the 't.. s..' document (split on the two prefixes, 1-D reader per part, maximum of the depths, depth-only last element) and theorem "
             "st_ascii_roundtrip: for every list of elements with valid non-empty parts the reader applied to the writer's document returns (d1, d2, elements) — resting on the 1-D end-to-end "
             "theorems of C07; st_json_roundtrip: the same for the JSON document (single cells only). Tied to the code both ways on real files and real text (writer rows / text = model, reader = "
-            "model reader; the JSON text is reduced to the ASCII document by a fixed lexical mapping) plus idempotence of re-serialisation. Partial: FITS headers and depth keywords are checked by "
-            "direct round trips on real bytes (test level), not modelled; u64 only.",
+            "model reader; the JSON text is reduced to the ASCII document by a fixed lexical mapping) plus idempotence of re-serialisation. Partial: the ST JSON reader and the pre-v2 ST FITS reader are checked by "
+            "direct round trips on real bytes (test level), not modelled (FITS header and depth keywords: modelled and proved in session 5, below); u64 only.",
     "design_ref": "DESIGN.md §4 C11, §10",
     "note": TB + "; bit test modelled arithmetically; ASCII/JSON ST syntaxes tested not proved",
     "technique": "Lean 4 proof (row codec round trip by induction over elements) + differential correspondence on real FITS files + direct round-trip checks for ASCII/JSON",
